@@ -5,9 +5,9 @@ from common import *
 META = {
     'explanation': 'Engine B (fpsym): grids reached by make / transform / load / refine / merge / coefficient overwrite / partial construction (values symbolic) are written with the real writeBinary through std::ostream::write and read back with readBinary; '
                    'the shadows of the doubles travel on a side tape keyed by (streambuf, byte offset), so every observable of the restored grid is an EXPRESSION that z3 compares with the original (symbol identity). Structure, order of points, limits, transforms, '
-                   'construction flag, byte-identity of the second generation, exact consumption of the stream and the behaviour of further operations are checked on the class. The ASCII format is executed as a concrete sanity pass only.',
+                   'construction flag, byte-identity of the second generation, exact consumption of the stream and the behaviour of further operations are checked on the class. The ASCII format is covered the same way since round 5: operator<<(double) / operator>>(double&) move the shadow on a token tape keyed by (streambuf, byte offset of the token), so a value written in one place and parsed in another, a missing or extra token, or a swapped pair shows up as a different expression; that the digits themselves survive (17 significant digits) is checked bit-for-bit on the explored representative of every class, in both formats.',
     'functions_encoded': ['TasmanianSparseGrid::{write, read, writeBinary, readBinary}', 'GridGlobal/GridSequence/GridLocalPolynomial/GridWavelet/GridFourier::write<binary> and stream constructors', 'MultiIndexSet / StorageSet / Data2D binary I/O', 'DynamicConstructorDataGlobal / SimpleConstructData binary I/O', 'IO::{writeNumbers, writeVector, readNumber, readVector, writeRule, readRule, writeFlag, readFlag}'],
-    'assumptions': ['reals instead of doubles on symbolic data', 'std::stringstream is the stream (file entry points only open/close a stream)', 'ASCII format NOT claimed: number formatting/parsing happens inside libstdc++ and is not encoded; it runs with concrete values and is not counted', 'Wavelet with concrete values'],
+    'assumptions': ['reals instead of doubles on symbolic data', 'std::stringstream is the stream (file entry points only open/close a stream)', 'ASCII: libstdc++ number formatting/parsing itself is not encoded (a stub moves the shadow between the token positions); exactness of the printed digits is a concrete bit-for-bit comparison per explored class, not a solver claim', 'Wavelet with concrete values'],
 }
 
 
@@ -18,12 +18,18 @@ def configs(tier):
     fams = [spec('localp', 'localp', 2, 2, 2, order=1, limits=2), spec('global', 'clenshaw-curtis', 2, 2, 2, transform=1), spec('sequence', 'rleja', 2, 1, 2, limits=2), spec('fourier', 'fourier', 2, 1, 1), spec('wavelet', 'wavelet', 2, 1, 1, order=1)]
     if tier == 'quick':
         for i, sp in enumerate(fams):
-            for h in (1, 3, (2, 6, 0, 5, 2)[i]): add(sp, h)
+            for h in (1, 3, (2, 6, 0, 5, 2)[i]): add(sp, h); add(sp, h, 0)
+            add(sp, (8, 2, 8, 8, 6)[i], 0)
         add(spec('localp', 'localp', 2, 1, 1, order=1), 4); add(spec('global', 'gauss-legendre', 2, 1, 2), 1); add(spec('localp', 'localp', 2, 0, 2, order=1), 0); add(spec('global', 'leja', 2, 1, 2), 5); add(spec('global', 'gauss-jacobi', 2, 1, 2, alpha=0.5, beta=1.5), 1); add(spec('global', 'gauss-hermite', 1, 1, 3, alpha=2.0), 1); add(spec('global', 'gauss-gegenbauer', 2, 2, 1, alpha=1.5), 2)
         add(spec('localp', 'semi-localp', 2, 1, 2, order=2), 1, 0); add(spec('sequence', 'leja', 2, 1, 2), 3, 0)
         for r in ('localp-boundary', 'localp-zero', 'semi-localp'): add(spec('localp', r, 2, 1, 2, order=2 if r == 'semi-localp' else 1), 1)   # every local rule through the binary rule code
         add(spec('global', 'clenshaw-curtis', 2, 1, 1), 9, 1, 60); add(spec('sequence', 'rleja', 2, 1, 1), 9, 1, 50); add(spec('localp', 'localp', 2, 1, 1, order=1), 9, 1, 50); add(spec('fourier', 'fourier', 2, 1, 1), 9, 1, 40); add(spec('fourier', 'fourier', 2, 1, 1), 2); add(spec('fourier', 'fourier', 2, 1, 1), 8); add(spec('global', 'clenshaw-curtis', 2, 1, 1), 8); add(spec('sequence', 'rleja', 2, 1, 1), 8); add(spec('wavelet', 'wavelet', 1, 1, 1, order=1), 9, 1, 30)   # solver-chosen histories before the round trip
         add(spec('global', 'clenshaw-curtis', 2, 1, 2), 7); add(spec('sequence', 'rleja', 2, 1, 2), 7); add(spec('fourier', 'fourier', 2, 1, 1), 7); add(spec('localp', 'localp', 2, 1, 2, order=1), 7)
+        # ASCII format (token tape): deepest-first construction, parametrised rules, every local rule, empty grid, zero outputs, solver-chosen histories
+        add(spec('global', 'clenshaw-curtis', 2, 1, 2), 7, 0); add(spec('sequence', 'rleja', 2, 1, 2), 7, 0); add(spec('fourier', 'fourier', 2, 1, 1), 7, 0); add(spec('localp', 'localp', 2, 1, 2, order=1), 7, 0)
+        add(spec('localp', 'localp', 2, 1, 1, order=1), 4, 0); add(spec('localp', 'localp', 2, 0, 2, order=1), 0, 0); add(spec('global', 'gauss-jacobi', 2, 1, 2, alpha=0.5, beta=1.5), 1, 0); add(spec('global', 'gauss-hermite', 2, 1, 2, alpha=1.0), 1, 0); add(spec('global', 'leja', 2, 1, 2), 5, 0)
+        for r in ('localp-boundary', 'localp-zero'): add(spec('localp', r, 2, 1, 2, order=1), 2, 0)
+        add(spec('global', 'clenshaw-curtis', 2, 1, 1), 9, 0, 40); add(spec('localp', 'localp', 2, 1, 1, order=1), 9, 0, 40); add(spec('fourier', 'fourier', 2, 1, 1), 9, 0, 30)
     else:
         fams += [spec('localp', r, 2, 2, 2, order=o, transform=(o % 2)) for r in LOCAL_RULES for o in (-1, 0, 1, 2, 3) if not (o == 0 and r != 'localp')]
         fams += [spec('global', r, 2, 2, 2, limits=(2 if r == 'leja' else 0)) for r in ('leja', 'fejer2', 'rleja-odd', 'gauss-patterson', 'min-delta', 'gauss-legendre', 'chebyshev-odd')] + [spec('global', 'gauss-hermite', 2, 1, 2, alpha=1.0), spec('global', 'gauss-jacobi', 2, 1, 2, alpha=0.5, beta=1.5),
@@ -33,12 +39,11 @@ def configs(tier):
                    spec('localp', 'semi-localp', 2, 2, 1, order=2), spec('localp', 'localp-boundary', 1, 1, 2, order=1), spec('wavelet', 'wavelet', 1, 1, 1, order=1)):
             add(sp, 9, 1, 343)
         for sp in fams:
-            for h in range(9): add(sp, h)
-            add(sp, 1, 0); add(sp, 3, 0)
+            for h in range(9): add(sp, h); add(sp, h, 0)
     return cs
 
 
 def run(tier, seed, only=None):
     cs = filt(configs(tier), only)
-    META['bounds'] = {'dims': '1..3', 'outputs': '0..2', 'histories': '8 classes incl. deepest-first construction (complete-but-blocked tensors), empty grid, zero outputs, pending refinement, merged refinement + coefficient overwrite, active construction with parked samples, conformal map', 'format': 'binary (ASCII un-counted sanity)'}
+    META['bounds'] = {'dims': '1..3', 'outputs': '0..2', 'histories': '8 classes incl. deepest-first construction (complete-but-blocked tensors), empty grid, zero outputs, pending refinement, merged refinement + coefficient overwrite, active construction with parked samples, conformal map', 'format': 'binary and ASCII (stringstream)'}
     return runner.run_property('C06', cs, tier, seed, META)
